@@ -506,6 +506,8 @@ func localHistories(c *common.Ctx, r *common.Rand, idx int, wal bool) error {
 		script = script2()
 	} else if idx == -3 {
 		script = script3
+	} else if idx == -7 {
+		script = hist.UnwrittenGrowthSteps()
 	} else if idx <= -4 {
 		script = script4
 	}
@@ -793,6 +795,9 @@ func Run(c *common.Ctx) error {
 		}
 	}
 	if err := localHistories(c, c.Rng.Fork(), -2, false); err != nil {
+		return err
+	}
+	if err := localHistories(c, c.Rng.Fork(), -7, false); err != nil {
 		return err
 	}
 	for i := 0; i < c.Pick(4, 30); i++ {
